@@ -1703,4 +1703,25 @@ def replay(path):
         for _, p in r["payloads"]:
             print(" ", json.dumps(p, default=str))
         print("error:", r["error"])
+    elif "graph" in d and "events" in d:
+        api, why = resolve_api()
+        if api is None:
+            print("work queue internals not available:", why)
+            return 0
+        g0 = d["graph"]
+        g = {"parents": {int(k): v for k, v in g0["parents"].items()},
+             "tasks": {int(k): (v[0], tuple(v[1])) for k, v in g0["tasks"].items()},
+             "streams": {int(k): [tuple(w) for w in v] for k, v in g0["streams"].items()},
+             "work0": tuple(g0["work0"])}
+        sizes = [len(b) for b in d["events"]] + [1] * 10
+        r = drive_wq(api, g, d.get("schedule", []), sizes, sum(len(b) for b in d["events"]))
+        print("re-run injected events:", r["injected"])
+        print("re-run work-queue events (flattened):", r["flat"])
+        print("terminated:", r["terminated"], "error:", r["err"])
+        print("real publisher payloads:")
+        for p in (r["real_payloads"] or []) if not isinstance(r["real_payloads"], tuple) else [r["real_payloads"]]:
+            print(" ", json.dumps(p, default=str))
+        m = Model("workqueue")
+        out = m.run_batch([enc_wq_case(g, model_events_of(r["injected"]))])[0]
+        print("model answer (enabled, oof, stopped, ...):", out[:60])
     return 0
